@@ -12,6 +12,10 @@ cp /repo/go.sum harness/go.sum
 for d in harness/cmd/*/; do
   n=$(basename "$d")
   [ "$n" = astgen ] && continue
+  ls "$d"*.go >/dev/null 2>&1 || continue
   (cd harness && go build -tags verif -o ../.build/$n ./cmd/$n) || echo "setup: harness $n failed to build"
 done
+# warm the build cache for the race-detector runner that cmd/c07 builds at run time
+(cd harness && go build -race -tags verif -o ../.build/c07race-warm ./cmd/c07/race) || echo "setup: c07 race runner failed to build"
+rm -f .build/c07race-warm
 echo setup done
